@@ -99,13 +99,9 @@ theorem step_keeps_call {s s' : State} {l : Label} {c j : Nat} {cn : Conn} {k : 
     split at h
     · cases h; exact same cn hc hk rfl
     · cases h
-  case ageTick =>
+  case ageTick c' =>
     split at h
-    · cases h
-      refine same (if (cn.accepted && !cn.closed) = true then { cn with ageReady := true } else cn)
-        (by show (s.conns.map _)[c]? = _; rw [List.getElem?_map, hc]; rfl) ?_ ?_
-      · split <;> exact hk
-      · split <;> rfl
+    · exact viaConn h (fun _ => rfl) (fun _ => rfl)
     · cases h
   case resolve =>
     split at h
